@@ -203,6 +203,16 @@ def run_property(pid, tier, seed):
         else:
             undecided.append({'clause': key, 'reason': '%s (%s)' % (status, bad[0].model)})
 
+    # ---------------- vacuity probes: `False` must not follow from the assumptions in force at function entry, inside
+    # each loop body and at a normal exit (a contradictory requires / invariant would make every clause pass)
+    probes = getattr(ld, 'probes', [])
+    vac = {}
+    for o in probes:
+        vac.setdefault(o.oid, []).append(o.status)
+    vacuous = sorted(k for k, sts in vac.items() if all(st == 'proved' for st in sts))
+    if vacuous:
+        print('CHECKER-ERROR property=%s contradictory assumptions (vacuous contract) at %r' % (pid, vacuous))
+        checker_error = True
     # ---------------- ground (finite, complete) and bounded floor
     ground_res = []
     floor_res = None
@@ -234,6 +244,22 @@ def run_property(pid, tier, seed):
                             'for it (the replay file names the failed obligation)'})
             p = core.write_replay(pid, v.get('clause', 'floor'), payload)
             violations.append({'clause': v.get('clause', 'floor'), 'replay': p, 'found': has_input})
+    # ---------------- CPython cross-check of the contracts: run-time monitors over a workload (bounded)
+    conf_res = None
+    if all_targets and os.environ.get('VERIF_NO_CONFORMANCE') != '1':
+        from harness import conformance
+        conf_res = conformance.run(ctx, pid, all_targets)
+        cseen = set()
+        for v in conf_res['violations']:
+            if v['clause'] in cseen:
+                continue
+            cseen.add(v['clause'])
+            payload = dict(v)
+            payload.update({'property': pid, 'kind': 'conformance',
+                            'kind_of_replay': 'workload item re-run on the real code under the run-time monitor of the '
+                                              'contract clause'})
+            p = core.write_replay(pid, v['clause'], payload)
+            violations.append({'clause': v['clause'], 'replay': p, 'found': True})
     # a proof-level refutation without its own input is superseded by a concrete input if the floor found one
     if any(v['found'] for v in violations):
         for v in violations:
@@ -295,6 +321,11 @@ def run_property(pid, tier, seed):
         'attempted_not_discharged': sorted(not_discharged),
         'explanation': getattr(prop, 'EXPLANATION', ''),
     }
+    if probes:
+        cov['vacuity_probes'] = {'probes': len(vac), 'satisfiable': sum(1 for sts in vac.values() if 'refuted' in sts),
+                                 'solver_gave_no_model': sum(1 for sts in vac.values() if 'refuted' not in sts
+                                                             and not all(st == 'proved' for st in sts)),
+                                 'contradictory': vacuous}
     if canary is not None:
         cov['canary_mutants_killed'] = len(canary['killed'])
         cov['canary_mutants'] = canary
@@ -306,6 +337,10 @@ def run_property(pid, tier, seed):
             if k in floor_res:
                 cov[k] = floor_res[k]
         cov['samples'] = (cov.get('samples') or []) + list(floor_res.get('samples', []))[:8]
+    if conf_res:
+        for k in ('monitor_evaluations', 'monitor_clauses_evaluated', 'monitor_pre_miss', 'monitor_items', 'monitor_rule',
+                  'monitor_clauses_not_evaluable_at_run_time'):
+            cov[k] = conf_res[k]
     ev = {'property_id': pid, 'tier': tier, 'seed': seed, 'level': level, 'coverage': cov,
           'assumptions': core.ASSUMPTIONS + list(getattr(prop, 'ASSUMPTIONS', [])),
           'wall_s': round(wall, 2), 'violations': len(vseen),
